@@ -110,6 +110,24 @@ class MachineExclusive:
 
     def finish(self, run):
         p = run.probe
+        # recorded execution intervals [ast, aft) on one machine never overlap
+        per = {}
+        for a in p.acts:
+            if a["kind"] == "do_work" and a["t1"] is not None \
+                    and not a["exc"] and a["ast"] is not None \
+                    and a["aft"] is not None and a["aft"] >= 0:
+                per.setdefault(a["machine"], []).append(
+                    (a["ast"], a["aft"], a["task"]))
+        for mid, iv in per.items():
+            iv.sort()
+            for (s1, e1, t1), (s2, e2, t2) in zip(iv, iv[1:]):
+                if s2 + EPS < e1:
+                    kinds = sorted((parse_tid(t1)[1], parse_tid(t2)[1]))
+                    run.violate("C01.recorded-intervals-disjoint",
+                                "recorded-runs-overlap:%s" % "+".join(kinds),
+                                {"machine": mid, "first": [t1, s1, e1],
+                                 "second": [t2, s2, e2]})
+                    break
         # non-triviality: a proposal was skipped, or two allocation loops were
         # live at once, or the adversary injected something
         props = sum(len(a["proposals"]) for a in p.alg_log)
@@ -658,6 +676,7 @@ class Admission:
         self.nprov = 0
         self.ontime_expect = {}
         self.loaded_start = False
+        self.begun_all = {}
 
     def _scan_calls(self, run):
         """process begin_obs calls made since the last scan, at the state in
@@ -704,10 +723,24 @@ class Admission:
                             "same-instant-starts" if same else "single"),
                         {"obs": name, "on_ingest": snap["ingest"],
                          "pending": ing_pending, "demand": oi["ingest"]})
+        # data still owed to observations that have already begun (earlier,
+        # or earlier in this very instant) is not room
+        owed = 0
+        for n2, t2 in self.begun_all.items():
+            o2 = self.info["obs"][n2]
+            done = o2["rate"] * min(max(t - t2, 0), o2["dur"])
+            owed += o2["size"] - done
+        self.begun_all[name] = t
         if snap["hot_free"] - oi["size"] < -EPS:
             run.violate("C08.hot-room", "admitted-without-hot-room",
                         {"obs": name, "hot_free": snap["hot_free"],
                          "size": oi["size"]})
+        elif snap["hot_free"] - owed - oi["size"] < -EPS:
+            run.violate("C08.hot-room",
+                        "admitted-into-room-owed-to-running-ingest:%s" % (
+                            "same-instant-starts" if same else "overlap"),
+                        {"obs": name, "hot_free": snap["hot_free"],
+                         "owed": owed, "size": oi["size"]})
         if snap["cold_free"] - oi["size"] < -EPS:
             run.violate("C08.cold-room", "admitted-without-cold-room",
                         {"obs": name, "cold_free": snap["cold_free"],
